@@ -59,4 +59,7 @@ class CallWriteHandler(AbstractWriteHandler):
             for e in exits
             if not (isinstance(e.target_vertex["op"], SsbLabel) and e.target_vertex["op"].id == op.label.id)
         ]
+        if len(not_called) == 0 and len(exits) == 1:
+            # Nothing comes behind the call, the routine ends here.
+            return None
         return min(not_called or exits, key=lambda e: e["flow_level"]).target_vertex
